@@ -55,6 +55,8 @@ type Config struct {
 	MockSafe bool
 	// TSSafe avoids shapes the TS server generator is known not to load (probe worlds only).
 	TSSafe bool
+	// NoTS marks the world as Go-only (spec.World.NoTS).
+	NoTS bool
 	// AnnService adds a service with one POST method per annotated message type (request and
 	// response are that type), so every custom codec sits at the top level of some call.
 	AnnService bool
@@ -253,7 +255,7 @@ func World(cfg Config) *spec.World {
 	}
 	name := cfg.Name
 	x.pkg = name + ".v1"
-	x.w = &spec.World{Name: name, Mock: cfg.Mock}
+	x.w = &spec.World{Name: name, Mock: cfg.Mock, NoTS: cfg.NoTS}
 	x.f = &spec.File{Path: name + "/svc.proto", Package: x.pkg, GoPackage: "verifworld/" + name + "/pb;pb"}
 	x.goPkg = "pb"
 	if x.has(FGoPkgTail) {
